@@ -636,7 +636,9 @@ def main(tier):
     def handle_run(cid, codes, rc):
         p, j = rc["p"], rc["col"]
         pd = prob_dict(p, j)
-        name = "ISTA" if rc["mode"] == 0 else "FISTA"
+        name = "ISTA" if rc.get("mode", 0) == 0 else "FISTA"
+        if len(R.violations) >= 12:
+            return          # enough concrete evidence; do not spend the time budget on more searches
         if 3 in codes or 4 in codes:
             R.violation("generator problem: step-size premise / shape check failed in Coq for problem %d (codes %s)" % (p["id"], codes),
                         {"kind": "generator", "problem": pd, "alpha_used": rc["alpha"], "codes": codes}, no_input=True)
